@@ -92,7 +92,7 @@ def _native_calls(prog, wd, cs):
     warned = set()
     for m in re.finditer(r"native\.c:(\d+):\d+: warning: .*\[-W(shift-count-overflow|shift-count-negative|overflow|div-by-zero|"
                          r"shift-negative-value|shift-overflow=?2?)\]", w.stdout):
-        fm = re.search(r"\b([fg]\d+_\d+)\(", src_lines[int(m.group(1)) - 1])
+        fm = re.search(r"\b([fgh]\d+(?:_\d+)+)\(", src_lines[int(m.group(1)) - 1])
         if fm:
             warned.add(fm.group(1))
     res = []
@@ -113,14 +113,25 @@ def _native_calls(prog, wd, cs):
         if p.returncode != 0 or len(vals) != q[0]:
             raise common.Broken("native fragment program failed rc=%d: %s" % (p.returncode, p.stderr[-300:]))
         res.append([None if i in bad else v for i, v in enumerate(vals)])
-    callee = re.findall(r"out\(\(long\)([fg]\d+_\d+)\(", lines)
+    # a function that calls a warned one is as unreliable natively (stage D programs: callees stand before callers)
+    changed = bool(warned)
+    while changed:
+        changed = False
+        for ln in src_lines:
+            fm = re.match(r"[\w ]*?\b([fgh]\d+(?:_\d+)+)\(", ln)
+            if fm and fm.group(1) not in warned and any(re.search(r"\b%s\(" % w_, ln[fm.end():]) for w_ in warned):
+                warned.add(fm.group(1))
+                changed = True
+    callee = re.findall(r"out\(\(long\)([fgh]\d+(?:_\d+)+)\(", lines)
     return [a if a == b and callee[i] not in warned else None for i, (a, b) in enumerate(zip(*res))]
 
 
 def run_fragment(ck, cc, d):
     """Tie of the theorems `lower_correct` (F1) and `lower2_correct` (F2) to this compiler.  For generated functions
     of fragment F1 (`T f(params) { return E; }`) and of fragment F2 (bodies with declarations, assignments, ++/--,
-    if/else, while/do/for, break/continue, return; gen/c01frag.py: typed tree as expr.c/stmt.c/decl.c build it):
+    if/else, while/do/for, switch/case/default, break/continue, return; gen/c01frag.py: typed tree as expr.c/stmt.c/
+    decl.c build it), and for generated PROGRAMS of such functions calling each other and themselves (stage D: no
+    theorem yet - Props/C01.lean `lower3_correct_full` is stated, not claimed; same three comparisons):
       (1) the text `Lower.emitFunc` / `Lower2.emitFunc` gives for the tree is byte-identical to what cproc-qbe emits;
       (2) `CSem.evalC` / `CSem2.runC` agrees with gcc and clang (UBSan-clean) on sample arguments - validates the C
           semantics the theorems are stated against (a disagreement marks the check broken, never a violation);
@@ -128,6 +139,7 @@ def run_fragment(ck, cc, d):
     A text difference with (3) intact is reported as `no-failing-input-found` naming the theorem."""
     n = 240 if ck.quick else 2500
     n2 = 110 if ck.quick else 1500
+    n3 = 20 if ck.quick else 300
     st = {"functions": 0, "functions-F2": 0, "text-identical": 0, "calls-defined": 0, "calls-defined-F2": 0,
           "calls-ub-skipped": 0, "il-runs": 0, "native-runs": 0}
     ophist = {}
@@ -135,10 +147,16 @@ def run_fragment(ck, cc, d):
     for k, (targ, cs) in enumerate(progrun.TARGETS):
         funcs = c01frag.gen(ck.seed * 1009 + k, cs, n, prefix="f%d_" % k)
         funcs2 = c01frag.gen2(ck.seed * 1009 + k, cs, n2, prefix="g%d_" % k)
+        # stage D: programs - functions calling the ones before them (and themselves); `drv_c01 eval` gets the
+        # whole program for these (sixth component), everything else is per function as for F2
+        funcs3 = c01frag.gen3(ck.seed * 1009 + k, cs, n3, prefix="h%d_" % k)
+        st["functions-in-programs"] = st.get("functions-in-programs", 0) + len(funcs3)
+        funcs2 = funcs2 + funcs3
         for f in funcs2:
             for kind, cnt in f[4].items():
                 stmthist[kind] = stmthist.get(kind, 0) + cnt
         nf1 = len(funcs)
+        evalsx = [f[1] for f in funcs] + [f[5] if len(f) > 5 else f[1] for f in funcs2]
         funcs = funcs + [f[:4] for f in funcs2]      # one translation unit: mkblock's counter runs on
         st["functions"] += len(funcs)
         st["functions-F2"] += len(funcs2)
@@ -163,7 +181,7 @@ def run_fragment(ck, cc, d):
         differ = [i for i in range(len(funcs)) if i >= len(real) or real[i] != model[i]]
         st["text-identical"] += len(funcs) - len(differ)
         # sample arguments on which the C semantics is defined
-        lines = ["%s | %s" % (f[1], " ".join(map(str, a))) for f in funcs for a in f[3]]
+        lines = ["%s | %s" % (evalsx[i], " ".join(map(str, a))) for i, f in enumerate(funcs) for a in f[3]]
         ev = _drv01(ck, ["--cs", "1" if cs else "0", "eval"], "\n".join(lines) + "\n").splitlines()
         calls, want = [], []
         j = 0
@@ -364,7 +382,9 @@ META = {
              "lower_correct_in, lower_correct_exact).  F2 - functions whose body is built from declarations of integer block-scope "
              "objects with and without initialiser, assignment and compound assignment, ++/-- (also on _Bool objects), expression "
              "statements, compound statements, if, if-else, while, do-while, for (any clause missing, declaration in the first), "
-             "break, continue and return anywhere (no code after a jump statement in the same block), over F1's expressions on "
+             "switch with case/default labels anywhere in its body (fall-through, nested loops and blocks, controlling type int..unsigned "
+             "long long, the comparison ladder of casesearch over the AVL tree of tree.c), "
+             "break, continue and return anywhere (no code after a jump statement in the same block unless it is labelled), over F1's expressions on "
              "parameters and locals (lower2_correct, lower2_correct_in, lower2_correct_exact).  Statement: whenever the C semantics "
              "(Model/CSem.lean, Model/CSem2.lean over Spec/CInt.lean: big-step execution with fuel over a store in which "
              "uninitialised objects are indeterminate; `none` = undefined behaviour) makes the call return v on arguments rho, the IL "
@@ -375,9 +395,12 @@ META = {
              "and nesting, loops included), all in-range arguments, both char conventions, any block-counter start.  The theorems "
              "are tied to THIS compiler on every run: for generated F1 and F2 functions (typed trees as expr.c/stmt.c/decl.c build "
              "them) the text cproc-qbe emits must be byte-identical to the model's, the C semantics must agree with gcc and clang on "
-             "sample arguments, and the real IL executed under Spec/Qbe must return the C semantics' value.  Outside F1/F2 (floats, "
-             "pointers, aggregates, bit-fields, switch, goto, calls, non-scalar initialisers, VLAs, unreachable code after a jump) "
-             "nothing is proved: there the check is translation validation - every program of the typed generator "
+             "sample arguments, and the real IL executed under Spec/Qbe must return the C semantics' value.  The same three comparisons "
+             "(no theorem yet: Props/C01.lean states `lower3_correct_full` without claiming it) run for generated PROGRAMS of F2 "
+             "functions that call each other and themselves (Model/CSem3.lean: big-step semantics over the function table, arguments "
+             "converted as by assignment, result stored or dropped; Lower2's `call` lowering of qbe.c EXPRCALL).  Outside F1/F2 (floats, "
+             "pointers, aggregates, bit-fields, goto, non-scalar initialisers, VLAs, unreachable code after a jump) "
+             "nothing is proved (for calls: nothing beyond that tie): there the check is translation validation - every program of the typed generator "
              "gen/cprog.py is compiled by the freshly built cproc-qbe, its real IL is executed under the formal IL semantics and the "
              "trace/exit status compared with gcc and clang (UBSan/ASan-clean, agreeing), for the char conventions of all three "
              "targets."),
@@ -389,7 +412,7 @@ META = {
              "the oracle outside F1/F2.  Partial: the proofs cover F1 and F2; the rest of the property's language is validated "
              "per generated program, not proved."),
     "technique": "Lean 4 proofs of semantic preservation (simulation: induction on expressions; for statements induction on the fuel of "
-                 "a big-step C semantics, with loops, break/continue and pending jumps) for the integer expression and statement "
+                 "a big-step C semantics, with loops, switch ladders (C15's search-tree lemmas), break/continue and pending jumps) for the integer expression and statement "
                  "fragments + text-level correspondence with cproc-qbe + translation validation of generated programs under a formal "
                  "IL semantics",
 }
